@@ -113,6 +113,7 @@ def plan(tier, seed):
     units += [("ladder", tier, name) for name in families.STREAM_FAMILIES["quick"] if not name.startswith("bytes")] + [("ladder-num", tier)]
     units.append(("full", tier))
     units.append(("views",))
+    units += core.interp_axis([("views",), ("xor", 0)] + [("sl", "ctx", tier, u[2]) for u in families.get("ctx").units(tier)])
     return units
 
 
